@@ -124,15 +124,31 @@ func stmts(list []ast.Stmt, ind string, twoResults bool) string {
 	panic(fmt.Sprintf("unsupported stmt %T", s))
 }
 
-// usage: ytranslate <repo> <outdir>; writes <outdir>/Resolve.lean (and the other generated files)
+// usage: ytranslate <repo> <outdir>.  Each generated file is produced independently; a file that
+// cannot be regenerated is REMOVED (so every proof that imports it breaks) and reported as
+// "FAILED <file>: reason"; the exit status is non-zero if any file failed.
 func main() {
 	repo, outdir := os.Args[1], os.Args[2]
-	defer func() {
-		if e := recover(); e != nil {
-			fmt.Println("translator: unsupported construct (failing closed):", e)
-			os.Exit(1)
-		}
-	}()
+	failed := false
+	run := func(name string, f func()) {
+		defer func() {
+			if e := recover(); e != nil {
+				fmt.Printf("FAILED %s: unsupported construct (failing closed): %v\n", name, e)
+				os.Remove(outdir + "/" + name + ".lean")
+				failed = true
+			}
+		}()
+		f()
+	}
+	run("Resolve", func() { genResolve(repo, outdir) })
+	run("Facts", func() { genFacts(repo, outdir) })
+	run("Action", func() { genAction(repo, outdir) })
+	if failed {
+		os.Exit(1)
+	}
+}
+
+func genResolve(repo, outdir string) {
 	fset := token.NewFileSet()
 	sym, err := parser.ParseFile(fset, repo+"/Symbol/symbol.go", nil, 0)
 	if err != nil {
@@ -164,7 +180,6 @@ func main() {
 	}
 	sb.WriteString("end Gen\n")
 	writeIfChanged(outdir+"/Resolve.lean", sb.String())
-	genFacts(repo, outdir)
 }
 
 // writeIfChanged keeps the file's mtime when nothing changed so that lake does not rebuild.
